@@ -19,6 +19,7 @@ CONSTANTS
   ApiNotifies = TRUE
   GraftNeedsStream = FALSE
   ApiSkipsIfPresent = FALSE
+  DrainAfterClose = FALSE
 CONSTRAINT OneFlying
 VIEW GView
 INVARIANT Emit
